@@ -33,9 +33,9 @@ theorem C04_power_traces (h : p.Accepted) (h2 : (2 : K) ≠ 0) (k : ℕ) :
 
 /-- **C04** without the transitivity clause of `Accepted` (a theorem of the model of the repaired code): the power traces agree also when levels are equal
 within `atol` only through a chain of neighbours -/
-theorem C04_chains_of_close_levels (hev : AbsLtEven K) (h : p.AcceptedCore) (h2 : (2 : K) ≠ 0) (k : ℕ) :
+theorem C04_chains_of_close_levels (h : p.AcceptedCore) (h2 : (2 : K) ≠ 0) (k : ℕ) :
     trS (p.sr "H_tilde" ^ k) = trS (p.sr "H" ^ k) :=
-  C04_power_traces (h.accepted hev) h2 k
+  C04_power_traces h.accepted h2 k
 
 /-- **C04** the characteristic polynomials of `H̃` and `H(λ)` coincide, coefficient by coefficient and order by order -/
 theorem C04_characteristic_polynomial (h : p.Accepted) (h2 : (2 : K) ≠ 0) :
